@@ -86,11 +86,15 @@ type T struct {
 
 // Runner drives the cases of one batch.
 type Runner struct {
-	Property string
-	Tier     string
-	Seed     uint64
-	Batch    int
-	NBatch   int
+	// Abandoned, if set, is asked before every case; a non-empty answer means that the process is
+	// no longer in a state in which further cases can be judged.
+	Abandoned           func() string
+	skippedAfterAbandon int
+	Property            string
+	Tier                string
+	Seed                uint64
+	Batch               int
+	NBatch              int
 	// Replay, when >= 0, runs only the case with that index.
 	Replay int
 
@@ -159,6 +163,20 @@ func (r *Runner) Case(desc any, fn func(t *T)) {
 		return
 	}
 	t := &T{run: r, index: i, desc: desc}
+	if r.Abandoned != nil {
+		if why := r.Abandoned(); why != "" {
+			// An earlier case left work running in this process (a run the watchdog gave up on):
+			// later cases would share package-level state with it. They are not executed; the
+			// watchdog firing has made the whole check inconclusive already.
+			r.mu.Lock()
+			r.skippedAfterAbandon++
+			r.mu.Unlock()
+			if r.skippedAfterAbandon == 1 {
+				t.Inconclusive("cases after this point were not executed in this child: " + why)
+			}
+			return
+		}
+	}
 	if r.journal != nil {
 		b, _ := json.Marshal(desc)
 		fmt.Fprintf(r.journal, "%d\t%s\n", i, b)
